@@ -248,7 +248,11 @@ def build(desc, transcribe=True, solver=True, extra_phys=False, stage_factory=No
         rhs = [E.to_casadi(e, sym_base) for e in desc['ode']]
         sder = desc.get('scale_der')
         off = 0
-        for si, s in enumerate(b.states):
+        concat = desc.get('concat_der') and sder is None and len(b.states) >= 2
+        if concat:
+            # the dynamics of all states declared in ONE call on the concatenation of the state symbols
+            (ocp.set_next if desc.get('next') else ocp.set_der)(ca.vertcat(*b.states), ca.vertcat(*rhs))
+        for si, s in enumerate([] if concat else b.states):
             n = s.numel()
             r = ca.vertcat(*rhs[off:off + n]) if n > 0 else ca.MX(0, 1)
             if desc.get('next'):
